@@ -31,13 +31,14 @@ META = {
 
 WEIGHTS = {'post_rp': 6, 'put_invs': 10, 'put_alloc': 8, 'post_allocs': 4,
            'put_trait': 3, 'post_rc': 3, 'delete_alloc': 1, 'delete_rp': 1,
-           'put_rp': 2, 'reshaper': 2}
+           'put_rp': 2, 'reshaper': 2, 'put_inv': 3, 'post_inv': 2,
+           'put_rp_traits': 3, 'put_rp_aggs': 3, 'delete_invs': 1}
 
 
 class Mixed(object):
     def __init__(self, rng, names):
         self.rng = rng
-        self.h = HistoryGen(rng, names, WEIGHTS, p_bad=0.15)
+        self.h = HistoryGen(rng, names, WEIGHTS, p_bad=0.15, p_accept=0.06)
         self.f = FailPlace(rng, names)
         self.n_fp = 0
 
